@@ -3999,14 +3999,20 @@ func (d *bincDecDriverBytes) nextValueBytesBdReadR() {
 		clen = fnLen(d.vs)
 		d.r.skip(clen)
 	case bincVdSymbol:
+		var symbol uint16
 		if d.vs&0x8 == 0 {
-			d.r.readn1()
+			symbol = uint16(d.r.readn1())
 		} else {
-			d.r.skip(2)
+			symbol = uint16(bigen.Uint16(d.r.readn2()))
 		}
 		if d.vs&0x4 != 0 {
+
 			clen = fnLen(d.vs & 0x3)
-			d.r.skip(clen)
+			bs, cond := d.r.readxb(clen)
+			if d.s == nil {
+				d.s = make(map[uint16][]byte, 16)
+			}
+			d.s[symbol] = d.d.detach2Bytes(bs, d.d.attachState(cond))
 		}
 	case bincVdTimestamp:
 		d.r.skip(uint(d.vs))
@@ -8074,14 +8080,20 @@ func (d *bincDecDriverIO) nextValueBytesBdReadR() {
 		clen = fnLen(d.vs)
 		d.r.skip(clen)
 	case bincVdSymbol:
+		var symbol uint16
 		if d.vs&0x8 == 0 {
-			d.r.readn1()
+			symbol = uint16(d.r.readn1())
 		} else {
-			d.r.skip(2)
+			symbol = uint16(bigen.Uint16(d.r.readn2()))
 		}
 		if d.vs&0x4 != 0 {
+
 			clen = fnLen(d.vs & 0x3)
-			d.r.skip(clen)
+			bs, cond := d.r.readxb(clen)
+			if d.s == nil {
+				d.s = make(map[uint16][]byte, 16)
+			}
+			d.s[symbol] = d.d.detach2Bytes(bs, d.d.attachState(cond))
 		}
 	case bincVdTimestamp:
 		d.r.skip(uint(d.vs))
